@@ -216,15 +216,17 @@ PROPS = {
     "C08": {
         "title": "No access outside caller-supplied byte ranges; inputs never modified",
         "variant": "default",
-        "quick": {"cases": 250000},
-        "thorough": {"cases": 10000000, "opts": ["bigmax=2000000"]},
+        "quick": {"cases": 250000, "opts": ["wraps=1"]},
+        "thorough": {"cases": 10000000, "opts": ["bigmax=2000000", "wraps=2"]},
         "rule": "rapidcheck cases over every public operation and every family entry point: hash submit/flush histories (28 ctx families + legacy + isal_), multi-hash and "
                 "murmur update/finalize (all families), every AES entry point x family (key expansion, GCM pre/precomp/init/update/finalize/one-shot incl. nt, CBC, "
                 "XTS) with per-buffer placement bits, GCM streaming with every update piece in its own exactly-sized buffer, rolling hash init/reset/run with the scan "
                 "loop forced to base/_00/_04, and every catalog isal_/legacy entry incl. zero lengths. Every buffer lives in its own mapping between two PROT_NONE "
                 "pages, end-flush (2/3) or start-flush, at the documented alignment only; inputs and constant key data are mapped read-only; the slack around each "
                 "buffer holds position-dependent canaries. Oracle: no SIGSEGV/SIGBUS (attributed to buffer and side), canaries intact, inputs unmodified (a write "
-                "faults). Non-trivial = a data length that is not a multiple of 64 with an end-flush input or output (a tail path next to an unmapped page).",
+                "faults). Per worker the first case(s) are a multi-hash update of 2^32-q bytes (a periodic read-only 5 GiB mapping) onto 1..1023 carried bytes, "
+                "q <= carried, family round-robin: the largest single update the signature allows. "
+                "Non-trivial = a data length that is not a multiple of 64 with an end-flush input or output (a tail path next to an unmapped page).",
         "assumptions": COMMON_ASSUME + ["an over-read that stays inside the same page on the non-flush side is invisible; both sides are alternated and the end-flush side "
                                         "(where vector tails over-read) gets most cases", "lengths above a few MiB are sampled sparsely (thorough tier)"],
     },
